@@ -162,7 +162,8 @@ Print Assumptions C08_unit_quaternion_matrix_is_generated_one.
    QuaternionRotation.matrix_(R) sets rotation_matrix_to_quaternion(R); with C08_euler_is_product,
    C08_angles_recover and C08_matrix_to_quaternion_branches this gives the setter/getter round trips *)
 Theorem C08_transform_classes_use_their_order :
-  cls_tensor_complete = true /\ cls_setter_complete = true /\ gen_cls_quaternion_setter_ok = true.
+  cls_tensor_complete = true /\ cls_setter_complete = true /\ gen_cls_quaternion_setter_ok = true /\
+  cls_fixed_complete = true (* scales_/angles_ and scales/angles are the identity on fixed (non-Parameter) parameters *).
 Proof. exact cls_params_ok. Qed.
 Print Assumptions C08_transform_classes_use_their_order.
 
